@@ -60,6 +60,18 @@ class MultiMachine(Machine):
             if share and i == 0:
                 n_share = fitlib.size_of(sp)
             members.append(sp)
+        same_data = False
+        if share and st("same_data").random() < 0.3 and fitlib.size_of(members[0]) == fitlib.size_of(members[1]):
+            # members 0 and 1 measure the same values: a source RELATIVE to the data can be shared between them
+            a, b = members[0], members[1]
+            ya = a["y"] if a["type"] == "xy" else a["d"]
+            if b["type"] == "xy":
+                b["y"] = list(ya)
+                if a["type"] == "xy":
+                    b["x"] = list(a["x"])
+            else:
+                b["d"] = list(ya)
+            same_data = True
         ops = [["new", members, sw.choice(["iminuit", "iminuit", "scipy"])]]
         variant = sw.choice(["plain", "plain", "pre", "pre", "bare", "nodet"])
         if variant == "nodet" and not share:
@@ -112,7 +124,11 @@ class MultiMachine(Machine):
                 nm = rng.choice(allnames)
                 ops.append(["fix", {"at": "multi", "name": nm, "value": None if rng.random() < 0.5 else self._val(rng, members, nm)}])
             elif r < 0.5:
-                ops.append(["release", {"at": "multi", "name": rng.choice(allnames)}])
+                if rng.random() < 0.25:
+                    nm = rng.choice(fitlib.par_names(members[i]))
+                    ops.append(rng.choice([["fix", {"at": i, "name": nm, "value": self._val(rng, members, nm)}], ["release", {"at": i, "name": nm}]]))
+                else:
+                    ops.append(["release", {"at": "multi", "name": rng.choice(allnames)}])
             elif r < 0.6 and share and nsh < 2:
                 J = [0, 1] if k == 2 or rng.random() < 0.6 else sorted(rng.sample(range(k), 2))
                 ok = all(members[j]["type"] in ("xy", "indexed") for j in J) and len(set(fitlib.size_of(members[j]) for j in J)) == 1
@@ -121,6 +137,9 @@ class MultiMachine(Machine):
                     axis = "x" if all(members[j]["type"] == "xy" for j in J) and rng.random() < 0.35 else "y"
                     a = {"fits": J if rng.random() < 0.7 or len(J) != k else "all", "axis": axis, "err": fitlib.gen_errval(rng, n, False),
                          "corr": rng.choice([0.0, 0.5, 1.0]), "name": "sh%d" % nsh}
+                    if same_data and J == [0, 1] and rng.random() < 0.6 and (axis == "y" or members[0].get("x") == members[1].get("x")):
+                        a["rel"] = True
+                        a["err"] = fitlib.gen_errval(rng, n, True)
                     if rng.random() < 0.3:
                         # a shared covariance matrix
                         B = np.array([[rng.choice([-0.2, -0.1, 0.0, 0.1, 0.2]) for _ in range(2)] for _ in range(n)])
@@ -214,6 +233,7 @@ class MultiMachine(Machine):
         n_mut = 0
         fitted = False
         stale_results = False
+        member_fix_used = False
 
         def viol(p, oracle, obs, msg, step, **kw):
             if p != prop:
@@ -265,7 +285,8 @@ class MultiMachine(Machine):
                     for b in J:
                         if a != b and a in offs and b in offs:
                             n = len(sims[a].ref.d)
-                            (Vx if src.axis == 0 else Vy)[offs[a]:offs[a] + n, offs[b]:offs[b] + n] += src.cov(np.zeros(n))
+                            vals = sims[a].ref.x if src.axis == 0 else sims[a].ref.d  # (identical in all sharing members for a relative source)
+                            (Vx if src.axis == 0 else Vy)[offs[a]:offs[a] + n, offs[b]:offs[b] + n] += src.cov(vals if src.relative else np.zeros(n))
             V = Vy + Vx * np.outer(g, g)
             ev = np.linalg.eigvalsh(0.5 * (V + V.T)) if V.size else np.array([1.0])
             if ev.min() <= 0 or ev.max() / ev.min() > 1e7:
@@ -348,6 +369,20 @@ class MultiMachine(Machine):
                         continue
                     multi.set_all_parameter_values(list(a))
                     after = "set_all@multi"
+                elif k in ("fix", "release") and a.get("at", "multi") != "multi":
+                    # issued on a member after the multi-fit exists: the statement demands one common value (I1) and the cost invariants;
+                    # how the fixed status of a member propagates is not specified, so the counting oracles (C10 leg) are switched off from here on
+                    i = a["at"]
+                    if i >= len(sims) or a["name"] not in sims[i].ref.par_names:
+                        continue
+                    if k == "fix":
+                        sims[i].fit.fix_parameter(a["name"], a["value"])
+                    else:
+                        if a["name"] not in sims[i].fit._fitter.fixed_parameters:
+                            continue
+                        sims[i].fit.release_parameter(a["name"])
+                    member_fix_used = True
+                    after = "%s@member" % k
                 elif k == "fix":
                     if a["name"] not in names:
                         continue
@@ -416,8 +451,14 @@ class MultiMachine(Machine):
                         mk = lambda: RefSource(a["name"], rax, "matrix", False, mat=M, mtype="cov")
                         res.probe("shared_matrix_source_added")
                     else:
-                        multi.add_error(ev, fits=a["fits"], axis=kax, name=a["name"], correlation=a["corr"])
-                        mk = lambda: RefSource(a["name"], rax, "simple", False, err=evn, corr=a["corr"])
+                        rel = bool(a.get("rel"))
+                        if rel:
+                            refv = [np.asarray(sims[j].ref.x if axis == "x" else sims[j].ref.d, dtype=float) for j in J]
+                            if any(v.shape != refv[0].shape or np.any(v != refv[0]) for v in refv):
+                                continue  # a relative shared source needs identical reference values in all sharing members
+                            res.probe("shared_relative_source_added")
+                        multi.add_error(ev, fits=a["fits"], axis=kax, name=a["name"], correlation=a["corr"], relative=rel)
+                        mk = lambda: RefSource(a["name"], rax, "simple", rel, err=evn, corr=a["corr"])
                     src = mk()
                     for j in J:
                         sims[j].ref.sources.append((mk(), "data"))
@@ -462,6 +503,8 @@ class MultiMachine(Machine):
                         sims[i].apply(["constraint", {"par": a["par"], "value": a["value"], "unc": a["unc"], "rel": a["rel"]}])
                         after = "constraint@member"
                 elif k == "do_fit":
+                    if member_fix_used:
+                        continue  # (which parameters the multi-fit floats is then unspecified)
                     free = len(names) - len(fixed)
                     nd = sum(len(s.ref.d) for s in sims)
                     if free < 1 or nd < free + 2 or not in_domain():
@@ -491,6 +534,8 @@ class MultiMachine(Machine):
                         i = op[2] % len(sims)
                         float(sims[i].fit.cost_function_value)
                         check_invariants(step, "member-read")
+                    elif what in ("ndf", "chi2p") and member_fix_used:
+                        continue
                     elif what == "ndf":
                         got = multi.ndf
                         exp = expected_ndf()
